@@ -506,3 +506,269 @@ def merge_pieces(pieces):
         else:
             out.append(pc)
     return out
+
+
+# ---------------------------------------------------------------- payloads WITH numbering inside nested braces
+# (`p{a{$}b{{$$@-}c}${1:x{y}}}`: repair 86fc68a).  A payload is a list of segments
+#   ('lit', text)                       literal run: no unescaped `$`; braces need not balance inside one run
+#   ('num', width, at, reverse, digits) counter `$`*width, optionally `@`, `-`, start value
+#   ('ph',)                             `$#`
+#   ('field', index_digits, ph|None)    `${n}` / `${n:placeholder}`
+# and the expected text is computed from the segments by the words of the statement: literal runs with escapes
+# resolved and inner braces kept, every counter replaced by its value (copy i of n: start+i-1, reversed start+n-i,
+# zero-padded to the width of the run; 1 of 1 outside repeaters), `$#` by the wrapped text (none here), a field by
+# its placeholder.
+NESTED_LIT = list('abXY09 .,:;!?+*>^()[]<=/|~%&_\'"') + ['é', '日', ' ', '\t', '-', '@', '#']
+NESTED_DIGITS = list('0123456789') + ['٣']
+
+
+def _nested_lit_run(rng, n, depth):
+    """Random literal run read from brace depth `depth`: returns (text, depth after it).  Opens and closes inner
+    braces freely (never below 0), escapes `$`, backslash and the occasional brace / other character."""
+    out = []
+    for _ in range(n):
+        r = rng.random()
+        if r < 0.22 and depth < 5:
+            out.append('{')
+            depth += 1
+        elif r < 0.40 and depth > 0:
+            out.append('}')
+            depth -= 1
+        elif r < 0.48:
+            out.append('\\' + rng.choice(['$', '\\', '{', '}', '@', '-', '3', 'a', '#']))
+        else:
+            out.append(rng.choice(NESTED_LIT))
+    return ''.join(out), depth
+
+
+def _nested_item(rng, fields=True):
+    k = rng.random()
+    if k < 0.6 or (not fields and k < 0.85):
+        width = rng.choice([1, 1, 1, 2, 3])
+        at = rng.random() < 0.5
+        reverse = at and rng.random() < 0.5
+        digits = ''.join(rng.choice(NESTED_DIGITS if rng.random() < 0.1 else '0123456789') for _ in range(rng.choice([0, 0, 1, 1, 2]))) if at else ''
+        return ('num', width, at, reverse, digits)
+    if k < 0.8 or not fields:
+        return ('ph',)
+    idx = ''.join(rng.choice('0123456789') for _ in range(rng.choice([1, 1, 2])))
+    if rng.random() < 0.5:
+        return ('field', idx, None)
+    ph = []
+    d = 0
+    for _ in range(rng.randint(0, 5)):
+        r = rng.random()
+        if r < 0.2 and d < 3:
+            ph.append('{')
+            d += 1
+        elif r < 0.35 and d > 0:
+            ph.append('}')
+            d -= 1
+        else:
+            ph.append(rng.choice(list('abX0 .,:$#@-*>[]()') + ['é']))
+    ph.append('}' * d)
+    return ('field', idx, ''.join(ph))
+
+
+def item_text(seg):
+    if seg[0] == 'num':
+        return '$' * seg[1] + (('@' + ('-' if seg[3] else '') + seg[4]) if seg[2] else '')
+    if seg[0] == 'ph':
+        return '$#'
+    if seg[0] == 'field':
+        return '${' + seg[1] + ((':' + seg[2]) if seg[2] is not None else '') + '}'
+    return seg[1]
+
+
+def render_nested(segs):
+    return ''.join(item_text(s) for s in segs)
+
+
+def _continues(seg, nxt):
+    """Would the character `nxt` written after the counter `seg` be read as part of it (or turn it into another
+    token)?  The statement's forms are `$`..., `@`, `-`, digits: nothing else."""
+    _, width, at, reverse, digits = seg
+    if nxt.isdecimal():
+        return True
+    if not at:
+        if nxt in '$@':
+            return True
+        if width == 1 and nxt in '{#':
+            return True
+    elif not digits and not reverse and nxt in '^-':
+        return True
+    return False
+
+
+def payload_nested(rng, n_items, fields=True):
+    """Random in-domain payload: literal runs alternating with items, items at any brace depth, rendering balanced."""
+    segs = []
+    depth = 0
+    t, depth = _nested_lit_run(rng, rng.choice([0, 0, 1, 2, 4]), depth)
+    segs.append(('lit', t))
+    for _ in range(n_items):
+        segs.append(_nested_item(rng, fields))
+        t, depth = _nested_lit_run(rng, rng.choice([0, 1, 1, 2, 3, 5]), depth)
+        segs.append(('lit', t))
+    segs.append(('lit', '}' * depth))
+    # what follows a counter must not continue it: separate with a neutral character
+    out = []
+    flat = [s for s in segs if not (s[0] == 'lit' and s[1] == '')]
+    for k, s in enumerate(flat):
+        out.append(s)
+        if s[0] == 'num':
+            rest = render_nested(flat[k + 1:]) + '}'
+            if _continues(s, rest[0]):
+                next_is_lit = k + 1 < len(flat) and flat[k + 1][0] == 'lit'
+                if next_is_lit and rest[0] not in '{}' and rng.random() < 0.5:
+                    out.append(('lit', '\\'))          # escape the character: it stays literal text
+                else:
+                    out.append(('lit', rng.choice(['x', ' ', '.'])))
+    # merge neighbouring literal runs
+    merged = []
+    for s in out:
+        if s[0] == 'lit' and merged and merged[-1][0] == 'lit':
+            merged[-1] = ('lit', merged[-1][1] + s[1])
+        else:
+            merged.append(s)
+    return merged
+
+
+def in_domain_nested(segs):
+    """The statement's domain, checked independently of the generator: runs alternate with items, every run keeps the
+    brace depth >= 0 with `$` and backslash only as escape pairs, the depth ends at 0, counters are written in a
+    documented form and are not continued by what follows, field placeholders balance their braces."""
+    d = 0
+    for k, s in enumerate(segs):
+        rest = render_nested(segs[k + 1:]) + '}'
+        if s[0] == 'lit':
+            if k + 1 < len(segs) and segs[k + 1][0] == 'lit':
+                return False
+            t = s[1]
+            i = 0
+            while i < len(t):
+                c = t[i]
+                if c == '\\':
+                    if i + 1 >= len(t):
+                        return False
+                    i += 2
+                    continue
+                if c == '$':
+                    return False
+                if c == '{':
+                    d += 1
+                elif c == '}':
+                    if d == 0:
+                        return False
+                    d -= 1
+                i += 1
+        elif s[0] == 'num':
+            _, width, at, reverse, digits = s
+            if width < 1 or not all(ch.isdecimal() for ch in digits) or (not at and (reverse or digits)):
+                return False
+            if _continues(s, rest[0]):
+                return False
+        elif s[0] == 'field':
+            if not s[1] or not all(ch.isdecimal() for ch in s[1]):
+                return False
+            if s[2] is not None:
+                pd = 0
+                for c in s[2]:
+                    if c == '{':
+                        pd += 1
+                    elif c == '}':
+                        if pd == 0:
+                            return False
+                        pd -= 1
+                if pd:
+                    return False
+    return d == 0
+
+
+def expect_nested(segs, i=None, n=None, wrapped=''):
+    """Text of the payload in copy i of n (1-based), by the statement; i = n = None: no repeated element or group
+    contains the place, every counter is 1 (whatever its start value and direction)."""
+    out = []
+    for s in segs:
+        if s[0] == 'lit':
+            out.append(unescape(s[1]))
+        elif s[0] == 'num':
+            _, width, at, reverse, digits = s
+            start = int(digits) if digits else 1
+            v = 1 if n is None else (start + n - i if reverse else start + i - 1)
+            out.append(str(v).rjust(width, '0') if v >= 0 else str(v))
+        elif s[0] == 'ph':
+            out.append(wrapped)
+        else:
+            out.append(s[2] or '')
+    return ''.join(out)
+
+
+def nested_depth_profile(segs):
+    """Brace depths at which the items of the payload stand (for coverage)."""
+    d = 0
+    out = []
+    for s in segs:
+        if s[0] == 'lit':
+            t = s[1]
+            i = 0
+            while i < len(t):
+                if t[i] == '\\':
+                    i += 2
+                    continue
+                if t[i] == '{':
+                    d += 1
+                elif t[i] == '}':
+                    d -= 1
+                i += 1
+        else:
+            out.append((s[0], d))
+    return out
+
+
+NESTED_WS = ' \t\xa0\n\r'
+
+
+def expect_nested_value(segs, i=None, n=None, wrapped=''):
+    """The node value by the statement: strings and tabstop fields in order; everything between two fields (runs
+    unescaped, counters replaced, `$#`) is ONE string, present iff something is written there.
+    Items: ['s', text] / ['f', index, placeholder]."""
+    out = []
+    acc = None
+    for s in segs:
+        if s[0] == 'field':
+            if acc is not None:
+                out.append(['s', acc])
+                acc = None
+            out.append(['f', int(s[1]), s[2] or ''])
+        elif s[0] == 'lit':
+            if s[1]:
+                acc = (acc or '') + unescape(s[1])
+        else:
+            acc = (acc or '') + expect_nested([s], i, n, wrapped)
+    if acc is not None:
+        out.append(['s', acc])
+    return out or None
+
+
+def expect_nested_tokens(segs):
+    """The value tokens by the statement, in order: a literal run gives its leading white space (one token) and ONE
+    literal holding the rest unescaped, an item ONE token with the fields written."""
+    out = []
+    for s in segs:
+        if s[0] == 'lit':
+            t = s[1]
+            k = 0
+            while k < len(t) and t[k] in NESTED_WS:
+                k += 1
+            if k:
+                out.append(('WhiteSpace', t[:k]))
+            if k < len(t):
+                out.append(('Literal', unescape(t[k:])))
+        elif s[0] == 'num':
+            out.append(('RepeaterNumber', s[1], bool(s[3]), int(s[4]) if s[4] else 1, 0))
+        elif s[0] == 'ph':
+            out.append(('RepeaterPlaceholder',))
+        else:
+            out.append(('Field', s[2] or '', int(s[1])))
+    return out
